@@ -57,10 +57,14 @@ def item_kind(cls, r):
 def item_attr(item):
     """the abstract value of the attributes column"""
     kind, r = item
+    if r["src"] == "gfftext":             # a record read off GFF rows by gff_spec_records
+        return r["attrs"]
+    if r["src"] == "gbtext":              # a record read off a GenBank feature table: qualifiers as written
+        return ("quals",) + tuple(sorted((k, (v,)) for k, v in r["quals"]))
     if kind == "gff":
         return gff_attr_text(r)
     if kind == "gb":
-        return ("quals",) + tuple(sorted([("gene", (r["name"],))] + [(k, (v,)) for k, v in r["quals"]]))
+        return ("quals",) + tuple(sorted([("gene", (r["name"],))] + [(k.lower(), (v,)) for k, v in r["quals"]]))
     return r["attrs"] if r["src"] == "user" else gff_attr_text(r)
 
 
@@ -280,6 +284,6 @@ def gb_text(loci):
 def gb_feats_of(records, form="std"):
     feats = []
     for r in records:
-        feats.append([r["biotype"], gb_location(r["spans"], r["strand"], form),
-                      [["gene", r["name"]]] + [list(q) for q in r["quals"]]])
+        feats.append([r["biotype"], gb_location(r["spans"], r["strand"], form),      # qualifier keys are lower case
+                      [["gene", r["name"]]] + [[k.lower(), v] for k, v in r["quals"]]])
     return feats
